@@ -79,6 +79,8 @@ def input_digest(prog):
     out = [0] * (T + 1)
     tabs = {"px": prog["px"]}
     for k, v in prog.get("extra", {}).items():
+        if isinstance(v, dict) and v.get("__bydate__"):
+            continue  # (static reference data: not dated input)
         if isinstance(v, dict) and v.get("__group__"):
             for m, tab in v["frames"].items():
                 tabs[k + "." + m] = tab
@@ -107,7 +109,7 @@ def perturb(prog, cut, rng, kind=None):
     """A copy of prog whose supplied data strictly after date index `cut`
     (1-based over the data rows) is changed; the date index itself is kept."""
     q = copy.deepcopy(prog)
-    tabs = [("px", q["px"])] + [(k, v) for k, v in q.get("extra", {}).items() if isinstance(v, dict) and not v.get("__raw__") and not v.get("__group__") and not v.get("__tx__")]
+    tabs = [("px", q["px"])] + [(k, v) for k, v in q.get("extra", {}).items() if isinstance(v, dict) and not v.get("__raw__") and not v.get("__group__") and not v.get("__tx__") and not v.get("__bydate__")]
     blotters = [v for v in q.get("extra", {}).values() if isinstance(v, dict) and v.get("__tx__")]
     for k, v in q.get("extra", {}).items():
         if isinstance(v, dict) and v.get("__group__"):
